@@ -7,7 +7,7 @@ CFGS = {
     "quick": [("c04-a", dict(FlushSteps="TRUE", CrashAt=FL, MaxStmts=3, MaxRows=3, MaxFlush=1, MaxCrash=1, Tables='{"t1"}', Vals="{1}"), None),
               ("c04-b", dict(FlushSteps="TRUE", CrashAt=FL, MaxStmts=3, MaxRows=2, MaxFlush=1, MaxCrash=2, Tables='{"t1"}', Vals="{1}", Ops='{"create", "insert", "delete"}'), 15000),
               # two tables, changes interleaved over their pages, flushes of existing pages torn anywhere, statements continue afterwards
-              ("c04-d", dict(FlushSteps="TRUE", CrashAt=FL, NoCrashIn='{"create"}', MaxStmts=5, MaxRows=1, MaxFlush=1, MaxCrash=1, Vals="{1}", Ops='{"create", "insert", "update"}'), 15000),
+              ("c04-d", dict(FlushSteps="TRUE", CrashAt=FL, NoCrashIn='{"create"}', MaxStmts=4, MaxRows=1, MaxFlush=1, MaxCrash=1, Vals="{1}", Ops='{"create", "insert", "update"}'), 15000),
               # leaves that do not split on every insert (capacity 4): a flush of existing pages of a multi-level tree
               ("c04-f", dict(LeafCap=4, FlushSteps="TRUE", CrashAt=FL, NoCrashIn='{"create"}', MaxStmts=4, MaxRows=2, MaxFlush=2, MaxCrash=1, Tables='{"t1"}', Vals="{1}", Ops='{"create", "insert", "update"}'), 15000),
               # a scripted corridor: a table grown to two leaves and flushed, then in ONE flush interval a row inserted, every
@@ -16,10 +16,18 @@ CFGS = {
               # the later records of that page)
               ("c04-u", dict(FlushSteps="TRUE", CrashAt=FL, NoCrashIn='{"create"}', MaxStmts=6, MaxRows=3, MaxFlush=2, MaxCrash=1, Tables='{"t1"}', Vals="{1}",
                              Wheres="{0}", Ops='{"create", "insert", "update"}', Script="<- ScriptInsUpdSplit", ScriptRows="<- RowsInsUpdSplit"), None),
+              # the same corridor with four-cell leaves (the second split then moves only rows of this flush interval: a flush torn
+              # after the split leaf loses nothing by itself) and an UPDATE that changes the values (inserted 1, updated to 2)
+              ("c04-s", dict(LeafCap=4, IntCap=5, FlushSteps="TRUE", CrashAt=FL, NoCrashIn='{"create"}', MaxStmts=6, MaxRows=3, MaxFlush=2, MaxCrash=1, Tables='{"t1"}',
+                             Vals="{1, 2}", Wheres="{0}", Ops='{"create", "insert", "update"}', Script="<- ScriptInsUpdSplit", ScriptRows="<- RowsInsUpdSplit",
+                             ScriptSeqs="<- SeqsInsUpdSplit"), None),
               # a torn flush of existing pages, recovery, more statements, a clean restart
               ("c04-e", dict(FlushSteps="TRUE", CrashAt='{"flush", "idle"}', NoCrashIn='{"create"}', MaxStmts=5, MaxRows=1, MaxFlush=2, MaxCrash=2, Tables='{"t1"}', Vals="{1}", Ops='{"create", "insert", "update"}'), 15000)],
     "thorough": [("c04-u", dict(FlushSteps="TRUE", CrashAt=FL, NoCrashIn='{"create"}', MaxStmts=6, MaxRows=3, MaxFlush=2, MaxCrash=1, Tables='{"t1"}', Vals="{1}",
                                 Wheres="{0}", Ops='{"create", "insert", "update"}', Script="<- ScriptInsUpdSplit", ScriptRows="<- RowsInsUpdSplit"), None),
+                 ("c04-s", dict(LeafCap=4, IntCap=5, FlushSteps="TRUE", CrashAt=FL, NoCrashIn='{"create"}', MaxStmts=6, MaxRows=3, MaxFlush=2, MaxCrash=1, Tables='{"t1"}',
+                             Vals="{1, 2}", Wheres="{0}", Ops='{"create", "insert", "update"}', Script="<- ScriptInsUpdSplit", ScriptRows="<- RowsInsUpdSplit",
+                             ScriptSeqs="<- SeqsInsUpdSplit"), None),
                  ("c04-a", dict(EmitMod=12, FlushSteps="TRUE", CrashAt=FL, MaxStmts=3, MaxRows=3, MaxFlush=1, MaxCrash=1, Tables='{"t1"}'), 60000),
                  ("c04-b", dict(FlushSteps="TRUE", CrashAt=FL, MaxStmts=4, MaxRows=2, MaxFlush=2, MaxCrash=2, Tables='{"t1"}', Vals="{1}"), 40000),
                  ("c04-c", dict(EmitMod=3, FlushSteps="TRUE", CrashAt=FL, MaxStmts=3, MaxRows=2, MaxFlush=1, MaxCrash=1), 60000),
